@@ -154,8 +154,9 @@ LXH("lx_stat_opts_arm_assign", COMMON + ["C06"], "quick", "'=' + <= 2 code point
 for nm, fn, ctx, first in (("semi_text_arm_nl_k2", "dispatch_macro_semi_term_text_expr", "semi_text", "\n"), ("semi_text_arm_percent_k2", "dispatch_macro_semi_term_text_expr", "semi_text", "%"),
                            ("arg_value_arm_nl_k2", "dispatch_macro_call_arg_value", "arg_value", "\n"), ("str_call_arm_nl_k2", "dispatch_macro_str_quoted_expr", "str_call", "\n"),
                            ("stat_opts_arm_percent_k2", "dispatch_macro_stat_opts_text_expr", "stat_opts", "%")):
-    LXH(f"lx_{nm}", COMMON + ["C06", "C13"], "quick", f"first char {first!r} (constant) + <= 1 code point", [f"Lexer::{fn}"], 2400, stubs=ARM, fixed=first, contexts=[ctx], mem=16)
-LXH("lx_eval_string_k3", COMMON + ["C06", "C08", "C13"], "quick", "<= 3 code points; flags, pnl symbolic", ["Lexer::lex_macro_string_in_macro_eval_context"], 3000, stubs=XID + NUMS + ["macro::is_macro_stat -> arbitrary bool (phf lookup)"], contexts=["eval"], mem=20)
+    LXH(f"lx_{nm}", COMMON + ["C06", "C13"], "thorough", f"first char {first!r} (constant) + <= 1 code point", [f"Lexer::{fn}"], 2400, stubs=ARM, fixed=first, contexts=[ctx], mem=16)
+LXH("lx_eval_string_k3", COMMON + ["C06", "C08", "C13"], "thorough", "<= 3 code points; flags, pnl symbolic", ["Lexer::lex_macro_string_in_macro_eval_context"], 3000, stubs=XID + NUMS + ["macro::is_macro_stat -> arbitrary bool (phf lookup)"], contexts=["eval"], mem=20)
+LXH("lx_eval_string_k2", COMMON + ["C06", "C08", "C13"], "quick", "<= 2 code points; flags, pnl symbolic", ["Lexer::lex_macro_string_in_macro_eval_context"], 1500, stubs=XID + NUMS + ["macro::is_macro_stat -> arbitrary bool (phf lookup)"], contexts=["eval"], mem=16)
 DEAD = ["sub-lexers of other first-character arms -> unreachable"]
 LXH("lx_default_star", COMMON + ["C06", "C11"], "quick", "'*' + <= 2 code points; macro nesting 0/1, pending flag symbolic", ["Lexer::dispatch_mode_default", "Lexer::lex_symbols", "Lexer::lex_predicted_comment", "Lexer::rollback"], 900, stubs=DEAD + XID, fixed="*", contexts=["default", "in_macro"])
 LXH("lx_default_symbol", COMMON + ["C06", "C11"], "quick", "<= 2 code points, first of the symbol/unknown class", ["Lexer::dispatch_mode_default", "Lexer::lex_symbols"], 900, stubs=DEAD + XID, contexts=["default"])
@@ -163,6 +164,59 @@ KWS = ["token_type::parse_keyword -> None (the datalines words are not keywords)
 LXH("lx_datalines_cards_k6", COMMON + ["C06", "C10", "C11", "C16"], "thorough", "'cArds' + <= 1 code point; previous default token ';' or not", ["Lexer::lex_identifier", "Lexer::lex_datalines"], 5400, stubs=KWS + XID, fixed="cArds", contexts=["default"], mem=24)
 LXH("lx_datalines_cards", COMMON + ["C06", "C10", "C11", "C16"], "thorough", "'cArds' + <= 2 code points", ["Lexer::lex_identifier", "Lexer::lex_datalines"], 10800, stubs=KWS + XID, fixed="cArds", contexts=["default"], mem=28)
 LXH("lx_str_expr_percent_k4", COMMON + ["C06", "C07", "C10"], "thorough", "'%' + <= 3 code points inside a string expression", ["Lexer::dispatch_mode_str_expr", "Lexer::lex_str_expr_text", "Lexer::resolve_string_literal_payload"], 3600, stubs=XID + HEXS + ["Lexer::lex_macro_identifier -> unreachable"], fixed="%", contexts=["str_expr"], mem=20)
+
+# ---------------------------------------------------------------------------------------------
+# lexer2.rs: eval dispatcher, argument name/value disambiguation, definition lists, double-quoted strings,
+# identifiers / keywords, open-code classification, %do / %local look-ahead, name expressions
+EV = ["Lexer::dispatch_mode_macro_eval", "Lexer::lex_macro_eval_operator", "Lexer::maybe_emit_empty_macro_string_in_eval", "is_macro_eval_mnemonic"]
+EVS = ["sub-lexers of the quote / comment / macro-trigger arms -> unreachable (first char assumed outside them)",
+       "Lexer::lex_macro_string_in_macro_eval_context -> contract stand-in: consumes one char, emits the operand text token (real scanner: lx_eval_string_k3)"]
+LXH("lx_eval_dispatch_ops", COMMON + ["C06", "C13", "C16"], "quick", "<= 4 code points, first char any except ' \" / & %; flags, pnl (any u32), look-behind token type symbolic", EV, 1200, stubs=EVS + XID, contexts=["eval"])
+LXH("lx_eval_percent_op", COMMON + ["C06", "C13"], "quick", "'%' + <= 2 code points (not a name start); flags, pnl symbolic", EV + ["Lexer::lex_macro_call"], 1200, stubs=EVS + XID, fixed="%", contexts=["eval"])
+AOV = ["Lexer::dispatch_macro_call_arg_or_value", "Lexer::checkpoint", "Lexer::rollback", "Lexer::clear_checkpoint"]
+AOS = ["Lexer::lex_macro_var_expr / lex_macro_identifier -> unreachable (first char constant, not a macro trigger)"]
+for nm, c in (("name", "a"), ("assign", "="), ("comma", ","), ("rparen", ")"), ("space", " "), ("quote", "'"), ("digit", "1"), ("slash", "/")):
+    LXH(f"lx_arg_or_value_first_{nm}", COMMON + ["C06", "C13"], "quick", f"first char {c!r} (constant) + <= {2 if nm == 'name' else 1} code points; flags symbolic; no checkpoint, look-behind '(' or ','", AOV, 600, stubs=AOS + XID, fixed=c, contexts=["arg_or_value"], mem=10)
+for nm, c in (("assign", "="), ("comma", ","), ("rparen", ")"), ("space", " "), ("quote", '"'), ("slash", "/"), ("percent", "%")):
+    LXH(f"lx_arg_or_value_named_{nm}", COMMON + ["C06", "C13"], "quick", f"'a' then {c!r} (constants) + <= 1 code point; the name token and its checkpoint come from the real first step; flags symbolic", AOV, 600, stubs=AOS + XID, fixed="a" + c, contexts=["arg_or_value"], mem=10)
+LXH("lx_maybe_arg_assign", COMMON + ["C13"], "quick", "'a' + <= 2 code points (optional whitespace run, then any char); flags symbolic", ["Lexer::lex_maybe_macro_call_arg_assign", "Lexer::rollback", "Lexer::lex_ws"], 600, fixed="a", contexts=["arg_or_value"], mem=10)
+LXH("lx_maybe_tail_arg", COMMON + ["C13", "C14"], "quick", "<= 2 code points", ["Lexer::lex_maybe_tail_macro_call_arg_value"], 600, contexts=["eval"], mem=10)
+LXH("lx_macro_def_args", COMMON + ["C06", "C13", "C14"], "quick", "<= 3 code points; the three definition-list modes", ["Lexer::lex_maybe_macro_def_args", "Lexer::dispatch_macro_def_arg", "Lexer::lex_macro_def_next_arg_or_default_value", "Lexer::lex_macro_def_identifier"], 600, contexts=["default"], mem=10)
+SE = ["Lexer::dispatch_mode_str_expr", "Lexer::lex_str_expr_text", "Lexer::lex_double_quoted_literal", "Lexer::handle_unterminated_str_expr", "Lexer::resolve_string_literal_payload", "Lexer::resolve_string_literal_ending", "Lexer::update_last_token"]
+SES = ["Lexer::lex_macro_identifier -> unreachable; Lexer::lex_macro_var_expr -> false (first char assumed not to start a macro trigger)"] + HEXS
+SEP = COMMON + ["C06", "C07", "C10", "C11", "C16"]
+LXH("lx_str_expr_text_plain_k3", SEP, "thorough", "plain literal: 'a' + <= 2 code points", SE, 3600, stubs=SES + XID, contexts=["quote"], mem=20)
+LXH("lx_str_expr_text_plain_k4", SEP, "thorough", "plain literal: 'a' + <= 3 code points", SE, 7200, stubs=SES + XID, contexts=["quote"], mem=24)
+LXH("lx_str_expr_text_expr_k3", SEP, "thorough", "genuine string expression (a macro variable or hidden token precedes): 'a' + <= 2 code points", SE, 3600, stubs=SES + XID, contexts=["str_expr"], mem=20)
+LXH("lx_str_expr_quote_plain_k3", SEP, "thorough", "plain literal: '\"' + <= 2 code points (empty literal with suffix, or escaped quote first)", SE, 3600, stubs=SES + XID, fixed='"', contexts=["quote"], mem=20)
+LXH("lx_str_expr_quote_plain_k4", SEP, "thorough", "plain literal: '\"' + <= 3 code points", SE, 7200, stubs=SES + XID, fixed='"', contexts=["quote"], mem=24)
+LXH("lx_str_expr_quote_expr_k3", SEP, "thorough", "genuine string expression: '\"' + <= 2 code points (closing quote with suffix, or escaped quote first)", SE, 3600, stubs=SES + XID, fixed='"', contexts=["str_expr"], mem=20)
+LXH("lx_str_expr_percent_k3", COMMON + ["C06", "C07", "C10"], "thorough", "plain literal: '%' (no name start after it) + <= 2 code points", SE, 3600, stubs=SES + XID, fixed="%", contexts=["quote"], mem=20)
+LXH("lx_str_expr_amp_k3", COMMON + ["C06", "C07", "C10"], "thorough", "genuine string expression: '&' run that is no macro trigger, <= 3 code points", SE, 3600, stubs=SES + XID, fixed="&", contexts=["str_expr"], mem=20)
+LXH("lx_unterminated_str_direct", ["C01", "C02", "C03", "C04", "C06", "C07", "C09", "C10"], "quick", "end of input; payload handed over by the text scanner symbolic; look-behind (start token last / another token on any channel) symbolic", ["Lexer::handle_unterminated_str_expr", "Lexer::update_last_token"], 300, contexts=["str_expr"], mem=8)
+HARNESSES[-1]["decoder"] = None
+LXH("lx_double_quoted_literal_direct", ["C01", "C02", "C03", "C04", "C06", "C07", "C10", "C11", "C16"], "quick", "closing quote + <= 2 code points of suffix; payload handed over symbolic", ["Lexer::lex_double_quoted_literal", "Lexer::resolve_string_literal_ending", "Lexer::update_last_token"], 300, stubs=HEXS, fixed='"', contexts=["quote"], mem=8)
+LXH("lx_str_expr_start", ["C01", "C02", "C03", "C04", "C06", "C10"], "quick", "'\"' + <= 1 code point", ["Lexer::lex_string_expression_start"], 300, fixed='"', contexts=["default"], mem=8)
+DLF = ["Lexer::lex_datalines", "Cursor::advance_by"]
+LXH("lx_datalines_direct_k3", COMMON + ["C06", "C10", "C11"], "quick", "'cArds' consumed + <= 3 code points; look-behind none / ';' / other, optional hidden token", DLF, 1800, cfgs=("nodebug",), fixed="cArds", contexts=["default"], mem=16)
+LXH("lx_datalines_direct_k4", COMMON + ["C06", "C10", "C11"], "thorough", "'lines' consumed + <= 4 code points", DLF, 5400, cfgs=("nodebug",), fixed="lines", contexts=["default"], mem=20)
+LXH("lx_datalines4_direct_k6", COMMON + ["C06", "C10", "C11"], "thorough", "'cards4' consumed + <= 6 code points (';;;;' terminator)", DLF, 7200, cfgs=("nodebug",), fixed="cards4", contexts=["default"], mem=24)
+TDC = ["every sub-lexer of the dispatcher (quotes, comments, blanks, macro variable / call / comment, the mode's text scanner) -> recording stand-ins; lex_macro_call's outcome chosen by the harness; the scanners have their own harnesses"]
+for nm, fn, ctx in (("semi_text", "dispatch_macro_semi_term_text_expr", "semi_text"), ("stat_opts", "dispatch_macro_stat_opts_text_expr", "stat_opts"), ("arg_value", "dispatch_macro_call_arg_value", "arg_value"), ("str_call", "dispatch_macro_str_quoted_expr", "str_call")):
+    LXH(f"lx_{nm}_classifier", COMMON + ["C06", "C13", "C14"], "quick", "<= 4 code points, first char any; pnl any u32, flags / mask symbolic", [f"Lexer::{fn}"], 900, stubs=TDC + XID, contexts=[ctx], mem=10)
+KWR = ["token_type::parse_keyword / parse_macro_keyword (phf, SipHash) -> recorder: stores its argument, returns a harness-chosen answer"]
+LXH("lx_identifier_k4", COMMON + ["C06", "C11", "C16"], "quick", "<= 4 code points starting with a name start", ["Lexer::lex_identifier"], 900, stubs=KWR + XID + ["Lexer::lex_datalines -> assert(false) (words of <= 4 chars are not datalines keywords)"], contexts=["default"], mem=10)
+DKR = ["Lexer::dispatch_macro_call_or_stat -> recorder (its table is checked by lx_preload_*)"]
+LXH("lx_macro_identifier_k4", ["C01", "C03", "C06", "C16"], "quick", "'%' + <= 3 code points (name start first)", ["Lexer::lex_macro_identifier", "lex_macro_call_stat_or_label"], 900, stubs=KWR + DKR + XID, fixed="%", contexts=["default", "semi_text"], mem=10)
+LXH("lx_macro_call_k3", ["C01", "C03", "C06", "C09", "C13"], "quick", "'%' + <= 2 code points; both flags symbolic", ["Lexer::lex_macro_call", "lex_macro_call_stat_or_label", "Cursor::advance_by"], 900, stubs=KWR + DKR + XID, fixed="%", contexts=["eval", "name_expr"], mem=10)
+LXH("lx_symbols_table", COMMON + ["C06", "C11"], "quick", "<= 2 code points, first of the symbol/unknown class", ["Lexer::lex_symbols"], 900, stubs=DEAD + XID, contexts=["default"], mem=10)
+LXH("lx_char_format_k5", COMMON + ["C06", "C11"], "quick", "'$' + <= 4 code points", ["Lexer::lex_symbols", "Lexer::lex_char_format", "Cursor::advance_by"], 1200, stubs=XID, fixed="$", contexts=["default"], mem=12, cfgs=("debug", "nodebug"))
+CLS = ["all sub-lexers of dispatch_mode_default -> contract stand-ins that consume one char, emit one token of a type of theirs and record which one ran"]
+LXH("lx_default_classifier", COMMON + ["C06", "C08", "C10", "C11"], "quick", "<= 3 code points, first char any; pending flag symbolic", ["Lexer::dispatch_mode_default", "Lexer::set_pending_stat"], 900, stubs=CLS + XID, contexts=["default"], mem=10)
+LXH("lx_macro_do_arms", ["C01", "C02", "C03", "C04", "C09", "C14"], "quick", "<= 3 code points after %do; macro keyword lookup answer symbolic", ["Lexer::dispatch_macro_do", "lex_macro_call_stat_or_label", "Lexer::lex_macro_identifier"], 1200, stubs=KWR + DKR + XID, contexts=["after_do"], mem=12)
+LXH("lx_macro_local_global_arms", ["C01", "C02", "C03", "C04", "C09", "C14"], "quick", "<= 2 code points after %local/%global", ["Lexer::dispatch_macro_local_global", "Lexer::expect_macro_let_stat"], 600, contexts=["default"], mem=8)
+NES = ["Lexer::lex_macro_call / lex_macro_var_expr -> contract stand-ins (arbitrary outcome; a call/variable consumes two chars and emits one token)", "Lexer::lex_cstyle_comment -> one-char comment stand-in"]
+LXH("lx_name_expr_arms", COMMON + ["C06", "C14"], "quick", "<= 3 code points; found-name flag and the statement's error kind symbolic", ["Lexer::dispatch_macro_name_expr"], 900, stubs=NES + XID, contexts=["name_expr"], mem=10)
 
 # ---------------------------------------------------------------------------------------------
 # macro.rs / lexer_mode.rs / numeric.rs leaves
